@@ -60,3 +60,11 @@ contract("parse:Parser._raise_for_non_comparable_function",
     raises_iff=[("JSONPathSyntaxError", "isinstance(expr, PrefixExpression) or isinstance(expr, LogicalExpression) or isinstance(expr, ComparisonExpression)"),
                 ("JSONPathTypeError", "not (isinstance(expr, PrefixExpression) or isinstance(expr, LogicalExpression) or isinstance(expr, ComparisonExpression)) and ((isinstance(expr, FilterQuery) and not singular(seq(expr.query.segments), len(expr.query.segments))) or (isinstance(expr, FunctionExtension) and has_key(self.env.function_extensions, str_of(expr.name)) and not (func_return(expr, self.env) == ExpressionType.VALUE)))")],
     props=["C05"])
+
+contract("parse:Parser._raise_for_uncompared_function",
+    requires=["wf_env(self.env)", "isinstance(expr, Expression)", "wf_expr(expr, self.env)", "isinstance(token, Token)"],
+    unfold=["wf_env", "wf_registry", "wf_func", "wf_call_e"],
+    raises_iff=[("JSONPathTypeError", "isinstance(expr, FunctionExtension) and has_key(self.env.function_extensions, str_of(expr.name)) "
+                                      "and func_return(expr, self.env) == ExpressionType.VALUE")],
+    props=["C05"],
+    note="a ValueType function call used as a test (not compared) is rejected")
